@@ -922,28 +922,28 @@ pub mod implementations {
 
         let primitive = primitive.move_out_of_heap_primitive()?;
 
-        let status = match primitive {
+        let (value, status) = match primitive {
             Primitive::Optional(Some(ref unwrapped)) => {
                 let var = unwrapped.as_ref().to_owned();
 
-                let var = var.move_out_of_heap_primitive()?;
-
-                ctx.register_variable_local(name.to_owned(), var)?;
-                true
+                (var.move_out_of_heap_primitive()?, true)
             }
-            primitive @ Primitive::Optional(None) => {
-                let primitive = primitive.move_out_of_heap_primitive()?;
-
-                ctx.register_variable_local(name.to_owned(), primitive)?;
-                false
-            }
-            other_primitive => {
-                let other_primitive = other_primitive.move_out_of_heap_primitive()?;
-
-                ctx.register_variable_local(name.to_owned(), other_primitive)?;
-                true
-            }
+            primitive @ Primitive::Optional(None) => (primitive, false),
+            other_primitive => (other_primitive.move_out_of_heap_primitive()?, true),
         };
+
+        // `a ?= e` stores into `a`: write through to an existing binding (a variable of an
+        // enclosing block, or a captured variable) and only otherwise create a new local.
+        let existing = ctx
+            .load_local(name)
+            .ok()
+            .or_else(|| ctx.load_callback_variable(name).ok());
+
+        if let Some(bundle) = existing {
+            bundle.set_primitive(value);
+        } else {
+            ctx.register_variable_local(name.to_owned(), value)?;
+        }
 
         ctx.push(bool!(status));
 
